@@ -10,65 +10,227 @@ import (
 	"golang.org/x/tools/go/ssa"
 )
 
-// sampleSide: which closure parameter a float value (x.Data) comes from.
-func sampleSide(fn *ssa.Function, v ssa.Value) string {
-	f, base, ok := loadOfField(v)
-	if !ok || f != "Data" {
+// opTracer follows the two operands of a sample operation (left, right) through
+// closures, constructor helpers and function-typed parameters, and records the
+// Go operators / math calls that are applied to them.
+type opTracer struct {
+	out  map[string]bool
+	seen map[*ssa.Function]bool
+}
+
+type opEnv struct {
+	side map[ssa.Value]string        // Sample or float64 values -> "L" / "R"
+	fns  map[ssa.Value]*opClosure    // func-typed params / free vars -> resolved function values
+}
+
+type opClosure struct {
+	fn  *ssa.Function
+	env *opEnv // environment of its free variables
+}
+
+func (t *opTracer) sideOf(fn *ssa.Function, v ssa.Value, env *opEnv, depth int) string {
+	if depth > 6 || v == nil {
 		return ""
 	}
-	p := base
-	if al, ok := base.(*ssa.Alloc); ok {
-		st := storesTo(al)
-		if len(st) >= 1 {
-			p = unspill(st[0].Val)
-		}
+	if s, ok := env.side[v]; ok {
+		return s
 	}
-	if len(fn.Params) >= 2 {
-		switch p {
-		case ssa.Value(fn.Params[0]):
-			return "L"
-		case ssa.Value(fn.Params[1]):
-			return "R"
+	switch x := v.(type) {
+	case *ssa.UnOp:
+		if x.Op != token.MUL {
+			return ""
 		}
+		// load of x.Data, or of a local cell holding a Sample/float
+		if f, base, ok := fieldNameOf(x.X); ok && f == "Data" {
+			return t.sideOfCell(fn, base, env, depth+1)
+		}
+		return t.sideOfCell(fn, x.X, env, depth+1)
+	case *ssa.Field:
+		if f, base, ok := fieldNameOf(x); ok && f == "Data" {
+			return t.sideOf(fn, base, env, depth+1)
+		}
+	case *ssa.ChangeType:
+		return t.sideOf(fn, x.X, env, depth+1)
 	}
 	return ""
 }
 
-// sampleOpSummary describes the arithmetic/comparison a SampleOp closure performs on (left.Data, right.Data).
-func sampleOpSummary(fn *ssa.Function) []string {
-	set := map[string]bool{}
+// sideOfCell: the side of the value first stored into a local cell (result := left).
+func (t *opTracer) sideOfCell(fn *ssa.Function, cell ssa.Value, env *opEnv, depth int) string {
+	if s, ok := env.side[cell]; ok {
+		return s
+	}
+	if al, ok := cell.(*ssa.Alloc); ok {
+		st := storesTo(al)
+		if len(st) >= 1 {
+			return t.sideOf(fn, st[0].Val, env, depth+1)
+		}
+	}
+	if fa, ok := cell.(*ssa.FieldAddr); ok {
+		return t.sideOfCell(fn, fa.X, env, depth+1)
+	}
+	return ""
+}
+
+func (t *opTracer) resolveFn(v ssa.Value, env *opEnv) *opClosure {
+	switch x := v.(type) {
+	case *ssa.Function:
+		return &opClosure{fn: x, env: &opEnv{side: map[ssa.Value]string{}, fns: map[ssa.Value]*opClosure{}}}
+	case *ssa.MakeClosure:
+		f, _ := x.Fn.(*ssa.Function)
+		if f == nil {
+			return nil
+		}
+		ne := &opEnv{side: map[ssa.Value]string{}, fns: map[ssa.Value]*opClosure{}}
+		for i, fv := range f.FreeVars {
+			if i >= len(x.Bindings) {
+				break
+			}
+			b := x.Bindings[i]
+			// captured cells: look through to what was stored
+			if al, ok := b.(*ssa.Alloc); ok {
+				if st := storesTo(al); len(st) == 1 {
+					b = st[0].Val
+				}
+			}
+			if c := t.resolveFn(b, env); c != nil {
+				ne.fns[fv] = c
+			} else if c, ok := env.fns[b]; ok {
+				ne.fns[fv] = c
+			}
+			if s, ok := env.side[b]; ok {
+				ne.side[fv] = s
+			}
+		}
+		return &opClosure{fn: f, env: ne}
+	}
+	if c, ok := env.fns[v]; ok {
+		return c
+	}
+	if u, ok := v.(*ssa.UnOp); ok && u.Op == token.MUL {
+		if c, ok := env.fns[u.X]; ok {
+			return c
+		}
+	}
+	return nil
+}
+
+func (t *opTracer) trace(fn *ssa.Function, env *opEnv, depth int) {
+	if fn == nil || fn.Blocks == nil || depth > 4 || t.seen[fn] {
+		return
+	}
+	t.seen[fn] = true
+	defer func() { t.seen[fn] = false }()
 	allInstrs(fn, func(in ssa.Instruction) {
 		switch x := in.(type) {
 		case *ssa.BinOp:
-			a, b := sampleSide(fn, x.X), sampleSide(fn, x.Y)
+			a, b := t.sideOf(fn, x.X, env, 0), t.sideOf(fn, x.Y, env, 0)
 			if a != "" && b != "" {
-				set[x.Op.String()+"("+a+","+b+")"] = true
+				t.out[x.Op.String()+"("+a+","+b+")"] = true
 			}
-			if (a == "R" && isZeroConst(x.Y) || b == "R" && isZeroConst(x.X)) && x.Op == token.NEQ {
-				set["guard:R!=0"] = true
-			}
-			if (a == "R" && isZeroConst(x.Y) || b == "R" && isZeroConst(x.X)) && x.Op == token.EQL {
-				set["guard:R==0"] = true
+			if (a == "R" && isZeroConst(x.Y) || b == "R" && isZeroConst(x.X)) && (x.Op == token.NEQ || x.Op == token.EQL) {
+				t.out["guard:R!=0"] = true
 			}
 		case *ssa.Call:
 			pkg, name := calleePkgName(x)
-			if pkg == "math" && len(x.Call.Args) == 2 {
-				a, b := sampleSide(fn, x.Call.Args[0]), sampleSide(fn, x.Call.Args[1])
-				if a != "" && b != "" {
-					set["math."+name+"("+a+","+b+")"] = true
+			if pkg == "math" {
+				if len(x.Call.Args) == 2 {
+					a, b := t.sideOf(fn, x.Call.Args[0], env, 0), t.sideOf(fn, x.Call.Args[1], env, 0)
+					if a != "" && b != "" {
+						t.out["math."+name+"("+a+","+b+")"] = true
+					}
+				}
+				if name == "NaN" {
+					t.out["NaN"] = true
+				}
+				return
+			}
+			// calls that carry the operands on
+			var callee *opClosure
+			if sc := x.Common().StaticCallee(); sc != nil {
+				if sc.Blocks == nil || sc.Pkg == nil || !isFirstParty(sc.Pkg.Pkg.Path()) {
+					return
+				}
+				callee = &opClosure{fn: sc, env: &opEnv{side: map[ssa.Value]string{}, fns: map[ssa.Value]*opClosure{}}}
+				if mc, ok := x.Call.Value.(*ssa.MakeClosure); ok {
+					callee = t.resolveFn(mc, env)
+				}
+			} else if !x.Call.IsInvoke() {
+				callee = t.resolveFn(x.Call.Value, env)
+			}
+			if callee == nil || callee.fn == nil {
+				return
+			}
+			ne := &opEnv{side: map[ssa.Value]string{}, fns: map[ssa.Value]*opClosure{}}
+			for k, v := range callee.env.side {
+				ne.side[k] = v
+			}
+			for k, v := range callee.env.fns {
+				ne.fns[k] = v
+			}
+			carries := false
+			for i, prm := range callee.fn.Params {
+				if i >= len(x.Call.Args) {
+					break
+				}
+				if sd := t.sideOf(fn, x.Call.Args[i], env, 0); sd != "" {
+					ne.side[prm] = sd
+					carries = true
+				}
+				if c := t.resolveFn(x.Call.Args[i], env); c != nil {
+					ne.fns[prm] = c
 				}
 			}
-			if pkg == "math" && name == "NaN" {
-				set["NaN"] = true
+			if carries || len(ne.fns) > 0 {
+				t.trace(callee.fn, ne, depth+1)
 			}
 		}
 	})
-	var out []string
-	for k := range set {
-		out = append(out, k)
+}
+
+// sampleOpSummaryOf describes the operation a SampleOp value performs on (left.Data, right.Data).
+// v is the value returned by buildSampleBinOp for one operator: a closure, or the
+// result of a constructor helper that returns one.
+func sampleOpSummaryOf(v ssa.Value) (summary []string, cl *ssa.Function, ok bool) {
+	t := &opTracer{out: map[string]bool{}, seen: map[*ssa.Function]bool{}}
+	root := &opEnv{side: map[ssa.Value]string{}, fns: map[ssa.Value]*opClosure{}}
+	var oc *opClosure
+	switch x := v.(type) {
+	case *ssa.MakeClosure, *ssa.Function:
+		oc = t.resolveFn(x, root)
+	case *ssa.Call:
+		// constructor helper: K(args) returns a closure over its parameters
+		k := x.Common().StaticCallee()
+		if k == nil || k.Blocks == nil {
+			return nil, nil, false
+		}
+		kenv := &opEnv{side: map[ssa.Value]string{}, fns: map[ssa.Value]*opClosure{}}
+		for i, prm := range k.Params {
+			if i < len(x.Call.Args) {
+				if c := t.resolveFn(x.Call.Args[i], root); c != nil {
+					kenv.fns[prm] = c
+				}
+			}
+		}
+		for _, ret := range returnsOf(k) {
+			for _, lv := range phiLeaves(ret.Results[0]) {
+				if c := t.resolveFn(lv, kenv); c != nil {
+					oc = c
+				}
+			}
+		}
 	}
-	sort.Strings(out)
-	return out
+	if oc == nil || oc.fn == nil || len(oc.fn.Params) != 2 {
+		return nil, nil, false
+	}
+	oc.env.side[oc.fn.Params[0]] = "L"
+	oc.env.side[oc.fn.Params[1]] = "R"
+	t.trace(oc.fn, oc.env, 0)
+	for k := range t.out {
+		summary = append(summary, k)
+	}
+	sort.Strings(summary)
+	return summary, oc.fn, true
 }
 
 func isZeroConst(v ssa.Value) bool {
@@ -126,7 +288,7 @@ func ruleSampleBinOp(r *Run) {
 		want, listed := sampleOpSpec[cr.Const]
 		o := r.Ob("CH-MAP", "logqlmetric.buildSampleBinOp["+cr.Const+"]", "the sample operation applies the operator it is built for to (left value, right value), keeps the left side's labels, and maps x/0 and x%0 to NaN")
 		o.Trivial = !listed
-		var closures []*ssa.Function
+		var vals []ssa.Value
 		allErr := true
 		for _, e := range cr.Ends {
 			if isErr, known := endReturnsError(e); known && isErr {
@@ -134,9 +296,7 @@ func ruleSampleBinOp(r *Run) {
 			}
 			allErr = false
 			if len(e.Results) > 0 {
-				if c := funcOfValue(e.Results[0].V); c != nil {
-					closures = append(closures, c)
-				}
+				vals = append(vals, e.Results[0].V)
 			}
 		}
 		if !listed {
@@ -147,14 +307,18 @@ func ruleSampleBinOp(r *Run) {
 			}
 			continue
 		}
-		if len(closures) != 1 {
-			o.Fail(r.pos(fn.Pos()), "expected exactly one operation closure, found %d", len(closures))
+		if len(vals) != 1 {
+			o.Fail(r.pos(fn.Pos()), "expected exactly one operation per operator, found %d", len(vals))
 			continue
 		}
-		c := closures[0]
-		got := normOpSummary(sampleOpSummary(c))
+		sum, c, okc := sampleOpSummaryOf(vals[0])
+		if !okc {
+			o.Undecide(r.pos(fn.Pos()), "the operation %s is not a closure over (left, right) the rule can follow", describe(vals[0], 0))
+			continue
+		}
+		got := normOpSummary(sum)
 		if got != want {
-			o.Fail(r.pos(c.Pos()), "the closure computes %q, expected %q", got, want)
+			o.Fail(r.pos(c.Pos()), "the operation computes %q, expected %q", got, want)
 			continue
 		}
 		// result sample starts from the left parameter (labels of the left side)
@@ -193,11 +357,24 @@ func ruleSampleBinOp(r *Run) {
 	}
 	// boolOp: (1, true) when the comparison holds; (0, !filter) otherwise
 	var boolOp *ssa.Function
-	for _, a := range fn.AnonFuncs {
-		if a.Signature.Params().Len() == 2 && a.Signature.Results().Len() == 2 {
-			if b, ok := a.Signature.Params().At(0).Type().Underlying().(*types.Basic); ok && b.Kind() == types.Bool {
-				boolOp = a
-			}
+	isBoolOp := func(a *ssa.Function) bool {
+		sg := a.Signature
+		if sg.Recv() != nil || sg.Params().Len() != 2 || sg.Results().Len() != 2 {
+			return false
+		}
+		b0, ok0 := sg.Params().At(0).Type().Underlying().(*types.Basic)
+		b1, ok1 := sg.Params().At(1).Type().Underlying().(*types.Basic)
+		r0, ok2 := sg.Results().At(0).Type().Underlying().(*types.Basic)
+		r1, ok3 := sg.Results().At(1).Type().Underlying().(*types.Basic)
+		return ok0 && ok1 && ok2 && ok3 && b0.Kind() == types.Bool && b1.Kind() == types.Bool && r0.Kind() == types.Float64 && r1.Kind() == types.Bool
+	}
+	for _, a := range p.SrcFuncs() {
+		pk := a.Pkg
+		if pk == nil && a.Parent() != nil {
+			pk = a.Parent().Pkg
+		}
+		if pk != nil && pk == fn.Pkg && isBoolOp(a) {
+			boolOp = a
 		}
 	}
 	ob := r.Ob("FE-BOOL", "logqlmetric.buildSampleBinOp boolOp", "a comparison yields 1 and is kept exactly where it holds; where it does not hold it yields 0 and is kept only with the bool modifier")
@@ -595,6 +772,7 @@ func ruleSetOps(r *Run) {
 			continue
 		}
 		pname := func(v ssa.Value) string {
+			v = unspill(v)
 			switch v {
 			case ssa.Value(cl.Params[0]):
 				return "left"
@@ -604,47 +782,82 @@ func ruleSetOps(r *Run) {
 			return "?"
 		}
 		index, iterate, keep, prefix := "?", "?", "?", "none"
-		var setCall *ssa.Call
-		for _, c := range callsIn(cl) {
-			if call, ok := c.(*ssa.Call); ok && callIs(call, modPath+"/"+metricPkg, "samplesSet") {
-				index = pname(call.Call.Args[0])
-				setCall = call
+		// the membership test: a comma-ok lookup in a set of grouping keys, somewhere in the closure or its helpers
+		var lk *ssa.Lookup
+		var lf *ssa.Function
+		for _, gf := range funcGroup(cl) {
+			allInstrs(gf, func(in ssa.Instruction) {
+				if l, ok := in.(*ssa.Lookup); ok && l.CommaOk {
+					if mt, ok := l.X.Type().Underlying().(*types.Map); ok && typeString(mt.Key()) == "uint64" {
+						lk, lf = l, gf
+					}
+				}
+			})
+		}
+		if lk == nil {
+			o.Fail(r.pos(cl.Pos()), "no membership test against a set of grouping keys found")
+			continue
+		}
+		var okv ssa.Value
+		for _, ref := range *lk.Referrers() {
+			if e, ok := ref.(*ssa.Extract); ok && e.Index == 1 {
+				okv = e
 			}
 		}
-		for _, l := range rangeIndexLoops(cl) {
-			iterate = pname(l.X)
-			for b := range l.Blocks {
-				for _, in := range b.Instrs {
-					c, ok := in.(*ssa.Call)
-					if !ok {
-						continue
+		var loop *rangeLoop
+		for _, l := range rangeIndexLoops(lf) {
+			if l.Blocks[lk.Block()] {
+				loop = l
+			}
+		}
+		if okv == nil || loop == nil {
+			o.Fail(r.pos(lk.Pos()), "the membership test is not evaluated per sample in a loop")
+			continue
+		}
+		for _, present := range []bool{true, false} {
+			w := &feWalker{Fn: cl, Assume: map[ssa.Value]constant.Value{okv: constant.MakeBool(present)}, Inline: inlineHelpers(cl), MaxPath: 3000}
+			for _, e := range w.Run() {
+				// which slice is ranged, which side is indexed, what is prepended
+				firstBody, nextHeader := -1, 1<<30
+				for i, b := range e.State.trail {
+					if b == loop.Body && firstBody < 0 {
+						firstBody = e.State.trailSeq[i]
+					} else if b == loop.Header && firstBody >= 0 && e.State.trailSeq[i] > firstBody && nextHeader == 1<<30 {
+						nextHeader = e.State.trailSeq[i]
 					}
-					if bi, ok := c.Call.Value.(*ssa.Builtin); ok && bi.Name() == "append" {
-						// under which lookup outcome?
-						for _, f := range factsAt(c.Block()) {
-							if e, ok := f.Cond.(*ssa.Extract); ok && e.Index == 1 {
-								if lk, ok := e.Tuple.(*ssa.Lookup); ok && setCall != nil && lk.X == ssa.Value(setCall) {
-									if f.Truth {
-										keep = "present"
-									} else {
-										keep = "absent"
-									}
+				}
+				for _, c := range e.State.calls {
+					if c.Call == ssa.CallInstruction(loop.Len) && len(c.Args) > 0 {
+						if n := pname(c.Args[0].V); n != "?" {
+							iterate = n
+						}
+					}
+					if callIs(c.Call, modPath+"/"+metricPkg, "samplesSet") && len(c.Args) > 0 {
+						if n := pname(c.Args[0].V); n != "?" {
+							index = n
+						}
+					}
+					if bi, ok := c.Call.Common().Value.(*ssa.Builtin); ok && bi.Name() == "append" && len(c.Args) == 2 {
+						if n := pname(c.Args[1].V); n != "?" {
+							prefix = n
+						}
+						// an append inside the first iteration of the membership loop: the sample is kept
+						if firstBody >= 0 && c.Seq > firstBody && c.Seq <= nextHeader && c.Call.Parent() == lf && loop.Blocks[c.Call.Block()] {
+							if present {
+								if keep == "?" || keep == "present" {
+									keep = "present"
+								} else {
+									keep = "both"
+								}
+							} else {
+								if keep == "?" || keep == "absent" {
+									keep = "absent"
+								} else {
+									keep = "both"
 								}
 							}
 						}
 					}
-				}
-			}
-		}
-		// prefix: append(result, left...) outside loops
-		for _, c := range callsIn(cl) {
-			call, ok := c.(*ssa.Call)
-			if !ok {
-				continue
-			}
-			if bi, ok := call.Call.Value.(*ssa.Builtin); ok && bi.Name() == "append" && len(call.Call.Args) == 2 {
-				if pn := pname(call.Call.Args[1]); pn != "?" {
-					prefix = pn
 				}
 			}
 		}
